@@ -213,6 +213,11 @@ func c11Case(c *Ctx) *Result {
 						{"wrong-password", creds[k].User, "bad", 1, -1, false},
 						{"empty", "", "", 1, -1, false},
 						{"swapped", creds[k].Password, creds[k].User, 1, -1, false},
+						// the same characters with the boundary between user and password moved
+						{"boundary-shifted-right", creds[k].User + creds[k].Password[:1], creds[k].Password[1:], 1, -1, false},
+						{"boundary-shifted-left", creds[k].User[:len(creds[k].User)-1], creds[k].User[len(creds[k].User)-1:] + creds[k].Password, 1, -1, false},
+						{"all-in-user", creds[k].User + creds[k].Password, "", 1, -1, false},
+						{"all-in-password", "", creds[k].User + creds[k].Password, 1, -1, false},
 						{"255-byte", string(make([]byte, 255)), string(make([]byte, 255)), 1, -1, false},
 						{"wrong-subneg-version", creds[k].User, creds[k].Password, byte(pick(r, 0, 2, 5)), -1, false},
 						{"truncated", creds[k].User, creds[k].Password, 1, r.Intn(3 + len(creds[k].User) + len(creds[k].Password)), false},
